@@ -37,11 +37,11 @@ Proof. exact remarshal_ok. Qed.
 
 (* The generated environment satisfies the side conditions, every struct the switch
    of Unmarshal names has a layout, and the switch as modelled is the dispatch the
-   running code showed on all 16 (SC present, type bits, failure bit) combinations. *)
+   running code showed on all 32 (SC present, type bits, next octet 00/7F/80/FF) combinations. *)
 Theorem C18_environment :
   env_ok sms_env /\ env_coherent sms_env /\
   forallb (fun n => match find_layout tpdu_layouts n with Some _ => true | None => false end) struct_names = true /\
-  forallb dispatch_row_ok tpdu_dispatch = true /\ List.length tpdu_dispatch = 16%nat.
+  forallb dispatch_row_ok tpdu_dispatch = true /\ List.length tpdu_dispatch = 32%nat.
 Proof. exact (conj sms_env_ok (conj sms_env_coherent (conj tpdu_layouts_complete tpdu_dispatch_ok))). Qed.
 
 (* D18 (repaired by a fix: commit): the decoder before the repair panics on a time
